@@ -21,7 +21,7 @@ REQUIRED_CLASSES = ('format:set', 'format:default', 'count:declared', 'count:bac
                     'box:triclinic', 'box:vector', 'numbers:edge', 'number:99999', 'number:>=100000',
                     'coords:rounding-boundary', 'coords:widest', 'dec:1', 'dec:6', 'calls:mixed-writeline-writelines',
                     'calls:one-record-writelines-first', 'boxclass:triclinic-upper', 'boxclass:triclinic-single',
-                    'boxclass:triclinic-negative', 'title:multibyte-characters', 'attributes:reassigned', 'attributes:after-records')
+                    'boxclass:triclinic-negative', 'title:multibyte-characters', 'attributes:reassigned', 'attributes:after-records', 'recovery:malformed-record-refused-then-writing-goes-on')
 RULE = ('file specifications: 1..300 records x names (5 classes) x number class x coordinate class x decimals 1..6 '
         '(format set through position_format or default) x velocities x box class x count declared/back-filled x title. '
         'Non-trivial: at least 2 records. distinct = distinct (decimals, format mode, velocities, box class, count mode, '
@@ -210,6 +210,8 @@ def run_case(ctx, case):
     ctx.hit('coords:' + spec['coord_class'])
     ctx.hit(f'dec:{spec["dec"]}')
     ctx.hit('attributes:' + ((spec.get('attr_history') or {}).get('kind') or 'set-once'))
+    if spec.get('refusals'):
+        ctx.hit('recovery:malformed-record-refused-then-writing-goes-on')
     if spec['title'] is not None and len(spec['title'].encode()) != len(spec['title']):
         ctx.hit('title:multibyte-characters')
     if spec.get('schedule'):
